@@ -25,11 +25,11 @@ type bufView struct {
 }
 
 type bufWrite struct {
-	buf     ssa.Value
-	off, n  int64
-	src     string
-	cond    bool // executed only on some paths
-	pos     token.Pos
+	buf    ssa.Value
+	off, n int64
+	src    string
+	cond   bool // executed only on some paths
+	pos    token.Pos
 }
 
 type bufInterp struct {
